@@ -294,9 +294,24 @@ func init() {
 			info := pkg.TypesInfo
 			var formP, bindsP types.Object
 			var boolPs []types.Object
+			// the body may arrive as its own parameter (`body []*lisp.LVal`, the forms after the binding
+			// list): the one *LVal parameter is then the binding list
+			var bodyP types.Object
 			for _, p := range paramObjs(u) {
+				if sl, ok := p.Type().Underlying().(*types.Slice); ok && strings.HasSuffix(sl.Elem().String(), "lisp.LVal") && bodyP == nil {
+					bodyP = p
+				}
+			}
+			for _, p := range paramObjs(u) {
+				if _, isSl := p.Type().Underlying().(*types.Slice); isSl {
+					continue
+				}
 				if strings.HasSuffix(p.Type().String(), "lisp.LVal") {
-					if formP == nil {
+					if bodyP != nil {
+						if bindsP == nil {
+							bindsP = p
+						}
+					} else if formP == nil {
 						formP = p
 					} else if bindsP == nil {
 						bindsP = p
@@ -374,8 +389,102 @@ func init() {
 				}
 				return true
 			})
+			// bodyParamIsBody: every call of the marking function passes, for the body parameter, the forms
+			// of the binding form from position >= 2 on — `sexpr.Cells[k:]` with k >= 2 (or `at+1` with
+			// at >= 1), written at the call or as the corresponding result of the helper that takes the
+			// form apart (bindingList)
+			bodyParamIsBody := false
+			if bodyP != nil {
+				isBodySlice := func(ri *types.Info, rbody ast.Node, e ast.Expr) bool {
+					sl, ok := ast.Unparen(e).(*ast.SliceExpr)
+					if !ok || sl.Low == nil || sl.High != nil {
+						return false
+					}
+					if se, ok := ast.Unparen(sl.X).(*ast.SelectorExpr); !ok || se.Sel.Name != "Cells" {
+						return false
+					}
+					if k, ok := intConst(ri, sl.Low); ok {
+						return k >= 2
+					}
+					// at+1 with at a local whose every definition is a constant >= 1
+					be, ok := ast.Unparen(sl.Low).(*ast.BinaryExpr)
+					if !ok || be.Op != token.ADD {
+						return false
+					}
+					k, okc := intConst(ri, be.Y)
+					v := identObj(ri, be.X)
+					if !okc || k < 1 || v == nil {
+						return false
+					}
+					okDefs, n := true, 0
+					ast.Inspect(rbody, func(m ast.Node) bool {
+						if as, ok := m.(*ast.AssignStmt); ok && len(as.Lhs) == len(as.Rhs) {
+							for i, l := range as.Lhs {
+								if identObj(ri, l) == v {
+									n++
+									if c0, ok := intConst(ri, as.Rhs[i]); !ok || c0 < 1 {
+										okDefs = false
+									}
+								}
+							}
+						}
+						return true
+					})
+					return okDefs && n > 0
+				}
+				sites, refs := c.CallsTo(nil, fn)
+				idxBody := -1
+				for i, p := range paramObjs(u) {
+					if p == bodyP {
+						idxBody = i
+					}
+				}
+				bodyParamIsBody = len(refs) == 0 && len(sites) > 0 && idxBody >= 0
+				for _, st := range sites {
+					if idxBody >= len(st.Call.Args) {
+						bodyParamIsBody = false
+						continue
+					}
+					sinfo := st.Unit.Pkg.TypesInfo
+					arg := st.Call.Args[idxBody]
+					if isBodySlice(sinfo, st.Unit.Decl.Body, arg) {
+						continue
+					}
+					okArg := false
+					if o := identObj(sinfo, arg); o != nil {
+						if dc, ridx, ndef := definingCall(sinfo, st.Unit.Decl.Body, o); dc != nil && ndef == 1 {
+							if h := originOf(Callee(sinfo, dc)); h != nil {
+								if hd := c.declOf[h]; hd != nil && hd.Body != nil {
+									hinfo := c.pkgOf[hd].TypesInfo
+									good, nr := true, 0
+									for _, rs := range returnsOf(hd.Body) {
+										if ridx >= len(rs.Results) {
+											good = false
+											continue
+										}
+										if isNilIdent(hinfo, rs.Results[ridx]) {
+											continue
+										}
+										nr++
+										if !isBodySlice(hinfo, hd.Body, rs.Results[ridx]) {
+											good = false
+										}
+									}
+									okArg = good && nr > 0
+								}
+							}
+						}
+					}
+					if !okArg {
+						bodyParamIsBody = false
+					}
+				}
+			}
 			classify := func(e ast.Expr) string {
 				e = ast.Unparen(e)
+				if bodyP != nil && identObj(info, e) == bodyP && bodyParamIsBody {
+					return "body"
+				}
 				if cl, ok := e.(*ast.CompositeLit); ok {
 					for _, el := range cl.Elts {
 						if identObj(info, el) == formP {
@@ -1912,32 +2021,95 @@ func init() {
 					return true
 				})
 			}
-			fromNorm := func(body *ast.BlockStmt, e ast.Expr) bool {
+			// constTable: e is an element of a package-level map whose literal holds only constant
+			// strings that are bare operator names (`testBindingForms["test-let"]` = "let")
+			constTable := func(e ast.Expr) bool {
+				ix, ok := ast.Unparen(e).(*ast.IndexExpr)
+				if !ok {
+					return false
+				}
+				mv, ok := identObj(info, ix.X).(*types.Var)
+				if !ok || mv.Parent() != p.Types.Scope() {
+					return false
+				}
+				good, found := true, false
+				for _, f := range p.Syntax {
+					ast.Inspect(f, func(m ast.Node) bool {
+						vs, ok := m.(*ast.ValueSpec)
+						if !ok {
+							return true
+						}
+						for i, nm := range vs.Names {
+							if info.Defs[nm] != types.Object(mv) || i >= len(vs.Values) {
+								continue
+							}
+							cl, ok := ast.Unparen(vs.Values[i]).(*ast.CompositeLit)
+							if !ok {
+								good = false
+								continue
+							}
+							found = true
+							for _, el := range cl.Elts {
+								kv, ok := el.(*ast.KeyValueExpr)
+								if !ok {
+									good = false
+									continue
+								}
+								if sv, ok := constStringVal(info, kv.Value); !ok || strings.Contains(sv, ":") {
+									good = false
+								}
+							}
+						}
+						return true
+					})
+				}
+				return good && found
+			}
+			var fromNormD func(body *ast.BlockStmt, e ast.Expr, depth int) bool
+			fromNormD = func(body *ast.BlockStmt, e ast.Expr, depth int) bool {
 				e = ast.Unparen(e)
 				if ce, ok := e.(*ast.CallExpr); ok {
 					return norm[originOf(Callee(info, ce))]
 				}
+				if sv, ok := constStringVal(info, e); ok {
+					return !strings.Contains(sv, ":")
+				}
+				if constTable(e) {
+					return true
+				}
 				o := identObj(info, e)
-				if o == nil {
+				if o == nil || depth > 2 {
 					return false
 				}
-				ok := false
+				// every definition of the local is a normalised value
+				all := true
 				n := 0
 				ast.Inspect(body, func(m ast.Node) bool {
-					if as, isAs := m.(*ast.AssignStmt); isAs && len(as.Lhs) == len(as.Rhs) {
-						for i, l := range as.Lhs {
-							if identObj(info, l) == o {
-								n++
-								if ce, isCall := ast.Unparen(as.Rhs[i]).(*ast.CallExpr); isCall && norm[originOf(Callee(info, ce))] {
-									ok = true
-								}
+					as, isAs := m.(*ast.AssignStmt)
+					if !isAs {
+						return true
+					}
+					for i, l := range as.Lhs {
+						if identObj(info, l) != o {
+							continue
+						}
+						n++
+						switch {
+						case len(as.Lhs) == len(as.Rhs):
+							if !fromNormD(body, as.Rhs[i], depth+1) {
+								all = false
 							}
+						case len(as.Rhs) == 1 && i == 0 && constTable(as.Rhs[0]):
+							// core, ok := table[…]
+						default:
+							all = false
 						}
 					}
 					return true
 				})
-				return ok && n == 1
+				return all && n > 0
 			}
+			fromNorm := func(body *ast.BlockStmt, e ast.Expr) bool { return fromNormD(body, e, 0) }
 			var obs []Obligation
 			names := make([]string, 0)
 			byName := map[string]*ast.BlockStmt{}
